@@ -9,6 +9,8 @@ import numpy as np
 import pandas as pd
 from wadler_lindig import pformat
 
+from mxlpy.types import Derived
+
 __all__ = ["Simulation"]
 
 if TYPE_CHECKING:
@@ -433,6 +435,78 @@ class Simulation:
             concatenated=concatenated,
         )
 
+    def _get_fluxes_by_sign(
+        self,
+        variable: str,
+        *,
+        sign: int,
+        scaled: bool,
+        normalise: float | ArrayLike | None,
+        concatenated: bool,
+    ) -> pd.DataFrame | list[pd.DataFrame]:
+        """Get the fluxes whose coefficient for variable has the given sign.
+
+        The coefficient of every reaction is evaluated on each reported row, that is
+        under the parameters of that row's segment and at that row's state and time.
+        A flux is listed if its coefficient has the sign in some row of the result;
+        the rows in which it has not are NaN.
+        """
+        factors: dict[str, float | Derived] = {
+            name: rxn.stoichiometry[variable]
+            for name, rxn in self.model.get_raw_reactions(as_copy=False).items()
+            if variable in rxn.stoichiometry
+        }
+        for surrogate in self.model.get_raw_surrogates(as_copy=False).values():
+            for name, stoichiometry in surrogate.stoichiometries.items():
+                if variable in stoichiometry:
+                    factors[name] = stoichiometry[variable]
+        if len(factors) == 0:
+            raise KeyError(variable)
+
+        coefficients = [
+            pd.DataFrame(
+                [
+                    [
+                        sign
+                        * (
+                            f.fn(*(row[i] for i in f.args))
+                            if isinstance(f, Derived)
+                            else f
+                        )
+                        for f in factors.values()
+                    ]
+                    for row in (
+                        values.to_dict() | {"time": time}
+                        for time, values in args.iterrows()
+                    )
+                ],
+                index=args.index,
+                columns=list(factors),
+                dtype=float,
+            )
+            for args in self._compute_args()
+        ]
+        names = [k for k in factors if any((c[k] > 0).any() for c in coefficients)]
+
+        fluxes: list[pd.DataFrame] = [
+            flux.loc[:, names].where(coef.loc[:, names] > 0)
+            for flux, coef in zip(
+                self.get_fluxes(normalise=normalise, concatenated=False),
+                coefficients,
+                strict=True,
+            )
+        ]
+        if scaled:
+            fluxes = [
+                flux * coef.loc[:, names]
+                for flux, coef in zip(fluxes, coefficients, strict=True)
+            ]
+
+        self.model.update_parameters(self.raw_parameters[-1])
+        if concatenated:
+            return pd.concat(fluxes, axis=0)
+        return fluxes
+
     @overload
     def get_producers(  # type: ignore
         self,
@@ -472,30 +546,13 @@ class Simulation:
         concatenated: bool = True,
     ) -> pd.DataFrame | list[pd.DataFrame]:
         """Get fluxes of variable with positive stoichiometry."""
-        self.model.update_parameters(self.raw_parameters[0])
-        names = [
-            k
-            for k, v in self.model.get_stoichiometries_of_variable(variable).items()
-            if v > 0
-        ]
-
-        fluxes: list[pd.DataFrame] = [
-            i.loc[:, names]
-            for i in self.get_fluxes(normalise=normalise, concatenated=False)
-        ]
-
-        if scaled:
-            fluxes = [i.copy() for i in fluxes]
-            for v, p in zip(fluxes, self.raw_parameters, strict=True):
-                self.model.update_parameters(p)
-                stoichs = self.model.get_stoichiometries_of_variable(variable)
-                for k in names:
-                    v.loc[:, k] *= stoichs[k]
-
-        self.model.update_parameters(self.raw_parameters[-1])
-        if concatenated:
-            return pd.concat(fluxes, axis=0)
-        return fluxes
+        return self._get_fluxes_by_sign(
+            variable,
+            sign=1,
+            scaled=scaled,
+            normalise=normalise,
+            concatenated=concatenated,
+        )
 
     @overload
     def get_consumers(  # type: ignore
@@ -536,30 +593,13 @@ class Simulation:
         concatenated: bool = True,
     ) -> pd.DataFrame | list[pd.DataFrame]:
         """Get fluxes of variable with negative stoichiometry."""
-        self.model.update_parameters(self.raw_parameters[0])
-        names = [
-            k
-            for k, v in self.model.get_stoichiometries_of_variable(variable).items()
-            if v < 0
-        ]
-
-        fluxes: list[pd.DataFrame] = [
-            i.loc[:, names]
-            for i in self.get_fluxes(normalise=normalise, concatenated=False)
-        ]
-
-        if scaled:
-            fluxes = [i.copy() for i in fluxes]
-            for v, p in zip(fluxes, self.raw_parameters, strict=True):
-                self.model.update_parameters(p)
-                stoichs = self.model.get_stoichiometries_of_variable(variable)
-                for k in names:
-                    v.loc[:, k] *= -stoichs[k]
-
-        self.model.update_parameters(self.raw_parameters[-1])
-        if concatenated:
-            return pd.concat(fluxes, axis=0)
-        return fluxes
+        return self._get_fluxes_by_sign(
+            variable,
+            sign=-1,
+            scaled=scaled,
+            normalise=normalise,
+            concatenated=concatenated,
+        )
 
     def get_new_y0(self) -> dict[str, float]:
         """Get the new initial conditions after the simulation.
